@@ -87,12 +87,18 @@ def check_case(ctx, case):
     if case.get("backbone_site"):
         ctx.note("replacement-with-site-in-backbone")
     ctx.note("chain={}".format(len(case["mods"])))
+    if case.get("long"):
+        ctx.note("replacement-in-a-60kb-plasmid")
+        ctx.case({"long": True, "enz": case["enz"], "position": case["position"], "replacement_length": len(case["replacement"])},
+                 nontrivial=True)
+        return          # oracle only: the driver is not fed 60 kb lines
     ctx.case({k: v for k, v in case.items() if k != "info"}, nontrivial=True)
     ctx.op(asm.asm_op(new), None, reply=r1)
 
 
 def run(ctx):
     rng = ctx.rng
+    made_long = 0
     for enz in asm.pick_enzymes(rng, ctx.budget(300, 12000)):
         g = asm.gen_wellformed(rng, enz, rng.randint(1, 5))
         if g is None:
@@ -120,6 +126,16 @@ def run(ctx):
             wd = gen.rot(wd, rng.randrange(len(wd)))
         if rng.random() < 0.1:
             wd = wd.lower()
+        if made_long < (1 if ctx.tier == "quick" else 4) and not case.get("backbone_site"):
+            # a replacement kept in a large plasmid (a 60 kb BAC), linearised inside its own upstream site
+            unit = "ACGTTGCATGCAAGCT"
+            filler = (unit * (60000 // len(unit) + 1))[:60000 + rng.randrange(16)]
+            base_ = gen.gen_module(rng, enz, md["o5"], md["o3"], tlen=rng.randint(2, 12), blen=8)
+            long_ = base_[0] + filler
+            if gen.circ_count(long_, site) == 1 and gen.circ_count(long_, gen.rc(site)) == 1:
+                wd, d2 = gen.rot(long_, -rng.randint(1, len(site) - 1)), base_[1]     # the word starts with the site
+                case["long"] = True
+                made_long += 1
         if rng.random() < 0.25:
             # a well-documented replacement: a long reference list, features citing its last entries
             L = rng.randint(10, 13)
